@@ -173,7 +173,11 @@ def body_interleave(case, stats):
         for i, (call, arg) in enumerate(calls):
             if call == "solve_phase" and not spec["phases"]:
                 call = "solve"
-            passed, table = do_call(sys, spec, call, arg, tmp)
+            try:
+                passed, table = do_call(sys, spec, call, arg, tmp)
+            except Exception as e:
+                raise Fail("analysis_raises.{}.{}".format(call, type(e).__name__),
+                           "{}() raised {}: {}".format(call, type(e).__name__, e))
             used.add(call)
             stats.cls("call:" + call)
             for label, obj, pristine in passed:
@@ -319,6 +323,12 @@ def body_edits(case, stats):
                         do_call(d.sys, spec_now, call, arg, tmp)
                     except (ValueError, RuntimeError):
                         pass
+                    except Exception as e:
+                        raise Fail("interleave.analysis_raises." + type(e).__name__,
+                                   "{}() between the edits raised {}: {} (history so far {}, "
+                                   "analyses at {})".format(
+                                       call, type(e).__name__, e,
+                                       [M.op_text(o) for o in ops[:i]][-5:], marks))
                     stats.cls("interleaved:" + call)
             if d.step(op) == "abort":
                 break
